@@ -26,7 +26,7 @@ type vRouter struct {
 
 var vRouterRoles = wamp.Dict{"roles": wamp.Dict{
 	"broker": wamp.Dict{"features": wamp.Dict{"payload_passthru_mode": true}},
-	"dealer": wamp.Dict{"features": wamp.Dict{"payload_passthru_mode": true, "call_canceling": true, "progressive_call_results": true}},
+	"dealer": wamp.Dict{"features": wamp.Dict{"payload_passthru_mode": true, "call_canceling": true, "progressive_call_results": true, "progressive_call_invocations": true}},
 }}
 
 func (v *vRouter) reply(m wamp.Message) wamp.Message {
